@@ -3,6 +3,8 @@ chunk by chunk; produces the same canonical log as the Lean `rx` op."""
 import asyncio
 import logging
 
+import priv
+
 logging.disable(logging.CRITICAL)   # the receiver logs every injected handler failure with a traceback
 
 from common import hx
@@ -110,8 +112,8 @@ def make(seq=0, transport=True, has_event=False, raise_at=(), reset_flag=False):
     p._verif_mode = mode
     if not transport and mode and seq != 0:
         # not reachable without also setting the event (close() resets the numbering): legacy path
-        p._ack_received_event = lp.run_until_complete(_mk_event())
-        p._pack_seq = seq
+        priv.put(p, "proto", "ack_event", lp.run_until_complete(_mk_event()))
+        priv.put(p, "proto", "pack_seq", seq)
     else:
         target = seq
         if mode == 2:
@@ -196,8 +198,8 @@ def session(chunks, seq=0, transport=True, has_event=False, raise_at=(), reset_f
         outs.append(",".join(log[mark:]) if len(log) > mark else ".")
     # private fields are read for a tighter comparison when they exist; a refactor that renames them only
     # loosens the comparison ("?" components are masked on the model side as well)
-    ev = _peek(p, "_ack_received_event", "?")
-    ps, aseq, buf = _peek(p, "_pack_seq", "?"), _peek(p, "_ack_seq", "?"), _peek(p, "_buffer", "?")
+    ev = priv.get(p, "proto", "ack_event", "?")
+    ps, aseq, buf = priv.get(p, "proto", "pack_seq", "?"), priv.get(p, "proto", "ack_seq", "?"), priv.get(p, "proto", "buffer", "?")
     final = "seq=%s ack=%s ev=%s buf=%s" % (
         ps, aseq, "?" if ev == "?" else (1 if (ev is not None and ev.is_set()) else 0),
         "?" if buf == "?" else hx(bytes(buf)))
